@@ -136,7 +136,9 @@ pub fn headers(request: bool) -> impl Strategy<Value = Vec<Hdr>> {
 }
 
 pub fn target() -> impl Strategy<Value = String> {
-    prop_oneof![3 => Just("/".to_string()), 2 => Just("/index.html?a=1&b=2".to_string()), 1 => Just("*".to_string()), 1 => Just("http://example.com:8080/p".to_string()), 2 => "/[!-~]{0,40}"]
+    prop_oneof![3 => Just("/".to_string()), 2 => Just("/index.html?a=1&b=2".to_string()), 1 => Just("*".to_string()), 1 => Just("http://example.com:8080/p".to_string()), 2 => "/[!-~]{0,40}",
+        // authority-form (RFC 7230 5.3.3, used with CONNECT) and other absolute-form schemes
+        1 => prop_oneof![Just("www.example.org:443".to_string()), Just("[2001:db8::1]:8443".to_string()), Just("10.0.0.1:80".to_string()), Just("https://user@example.com/".to_string()), Just("ftp://h/f".to_string())]]
 }
 
 pub fn request() -> impl Strategy<Value = Request> {
